@@ -19,7 +19,7 @@ echo "== demo with change" >> "$LOG"
 cargo test -p "$CRATE" --offline -j 6 --test "$NAME" >> "$LOG" 2>&1; RC_MUT=$?
 rm -f "$CRATE/tests/$NAME.rs"
 echo "== workspace suite with change" >> "$LOG"
-cargo test --workspace --offline -j 6 --no-fail-fast > "$SEED/suite_with_change.log" 2>&1; RC_SUITE=$?
+timeout 1800 cargo test --workspace --offline -j 6 --no-fail-fast > "$SEED/suite_with_change.log" 2>&1; RC_SUITE=$?
 grep -E "^test result|FAILED|failed" "$SEED/suite_with_change.log" >> "$LOG"
 git checkout -q -- .
 echo "SUMMARY demo_clean_rc=$RC_CLEAN demo_mutant_rc=$RC_MUT suite_rc=$RC_SUITE" | tee -a "$LOG"
